@@ -14,8 +14,18 @@ PY = "/venv/bin/python"
 
 def main():
     checks = []
+    import ast as _ast
+    import re as _re
+    ledger = open(os.path.join(ROOT, "KNOWN_FINDINGS.txt")).read().splitlines()
     for pid in sorted(M.CHECKS):
-        c = M.CHECKS[pid]
+        c = dict(M.CHECKS[pid])
+        # the claim text is the rule module's own docstring (what is decided / what is not), so the two cannot drift apart
+        doc = _ast.get_docstring(_ast.parse(open(os.path.join(ROOT, "flexlint", "rules", pid.lower() + ".py")).read())) or ""
+        doc = _re.sub(r"\s+", " ", doc.split("\n", 1)[1] if "\n" in doc else doc).strip()
+        n_open = sum(1 for l in ledger if l.startswith("open:") and f"property={pid} " in l)
+        c["text"] = ("Structural necessary conditions of the property, decided from source for every input / schedule / history at once. "
+                     + doc + (f" {n_open} known finding(s) of this property are listed in KNOWN_FINDINGS.txt (genuine defects pinned by the "
+                              "suite or too large to repair) and reported as KNOWN-FINDING." if n_open else ""))
         checks.append({
             "property_id": pid,
             "quick_cmd": f"{PY} -m flexlint check {pid} --tier quick",
